@@ -28,6 +28,12 @@ CLAIMED = {
             "absolute-value contraction otherwise; the shape of partial reductions is part of the oracle.",
             "Trusted: torch reductions on the checker's dense contraction.",
             "DESIGN.md 4/C07"),
+    "C08": ("property-based testing (Hypothesis): grammar-generated index expressions vs. dense indexing (shape and bit-equal values)",
+            "Grammar-based generation of index expressions (int/negative int, slices with steps in all bound spellings, "
+            "None, leading/trailing Ellipsis, bare forms, operator pairs) and apply_mask index matrices; oracle is the "
+            "identical expression on the dense array, comparing shape and bit-equal values.",
+            "Trusted: torch indexing on the checker's dense contraction. Empty slices are not generated.",
+            "DESIGN.md 4/C08"),
 }
 
 NOT_YET = {}
